@@ -1,4 +1,5 @@
 """C02 Boolean connectives, ITE, constants: terminal cases + wiring"""
+import etaut
 import ector
 import ecof
 import eeval
@@ -81,4 +82,9 @@ def run(ctx):
                 "edge; ZBDD: (tautology(level + 1), Empty) as the first node of its chain); the default not_var is not(var).")
     n = ector.run(ctx, F, only=("bdd", "bcdd", "zbdd"))
     ctx.floor("E-TABLE.ctor", "interpreted constructor bodies", n, 15)
+    ctx.explain("E-TAUT: ZBDDCache::tautology(level) returns the chain entry covering exactly the levels from `level` down "
+                "(Base beyond the last level); post_reorder_mut (run on init, add_vars and after reordering) starts the chain "
+                "with Base, walks the levels bottom-up and appends node(level; prev, prev) per level, then stores the chain.")
+    n = etaut.run(ctx, F)
+    ctx.floor("E-TAUT", "lookup / build situations", n, 8)
     ctx.not_decided = "the default value of variables missing from eval's arguments, behaviour under memory exhaustion and parallel scheduling"
